@@ -317,6 +317,34 @@ import (
 func Finalize(d *ext.Inner2, s *ext.Inner) { tr.Arg("hooksv2.Finalize", d, s); tr.Hit("hooksv2.Finalize") }
 `
 
+// DotFnSrc is a package the setup file dot-imports: its functions are written without qualifier in notations
+// (`:conv DotIntToStr A B`) and, through the carried-over dot import, in the generated code.
+const DotFnSrc = `package dotfn
+
+import (
+	"example.com/m/ext"
+	"example.com/m/tr"
+)
+
+func DotIntToStr(i int) string { tr.Hit("DotIntToStr"); return "d" + tr.Itoa(i) }
+
+func DotFinalize(d *ext.Inner2, s *ext.Inner) { tr.Arg("DotFinalize", d, s); tr.Hit("DotFinalize") }
+`
+
+// DotFuncs are the names that reach the setup file through its dot import of package dotfn.
+var DotFuncs = []string{"DotIntToStr", "DotFinalize"}
+
+// DriverFuncName is the name under which a function written in a notation is reachable from the emitted driver files
+// (they do not dot-import anything).
+func DriverFuncName(n string) string {
+	for _, d := range DotFuncs {
+		if n == d {
+			return "dotfn." + n
+		}
+	}
+	return n
+}
+
 // KnownPkgs maps the qualifier used in home-context type expressions to the import it needs.
 var KnownPkgs = []struct{ Qual, Alias, Path string }{
 	{"ext", "", ModulePath + "/ext"},
@@ -329,6 +357,7 @@ var KnownPkgs = []struct{ Qual, Alias, Path string }{
 	{"hooks", "", ModulePath + "/hooks"},
 	{"hooksv2", "hooksv2", ModulePath + "/hooks/v2"},
 	{"e", "e", ModulePath + "/enums"},
+	{"dotfn", "", ModulePath + "/dotfn"}, // dot-imported by setup files that name DotIntToStr / DotFinalize in a notation
 	{"audit", "", ModulePath + "/deep/audit"}, // never imported by generated setup files; the behavioural driver names its types
 }
 
